@@ -261,8 +261,9 @@ func runC07(c *an.Ctx) {
 }
 
 // r072: the caller's message enters only by copy.
-func r072(c *an.Ctx) {
-	const rule = "R07.2"
+func r072(c *an.Ctx) { r072as(c, "R07.2") }
+
+func r072as(c *an.Ctx, rule string) {
 	if fn := mustFunc(c, rule, resPkg, "", "GetAndUpdate"); fn != nil {
 		q := an.ModulePath + "/pkg/resource."
 		get, change := paramOfType(fn, q+"GetFn"), paramOfType(fn, q+"ChangeFn")
@@ -521,8 +522,9 @@ func r074(c *an.Ctx) {
 // r076: a message that is already published (obtained from a resource read or an event) must not be handed to a
 // write whose InterceptBefore callback modifies its `new` argument: InterceptBefore receives the very message the
 // caller passed in, so the callback would edit stored state / earlier results in place.
-func r076(c *an.Ctx) {
-	const rule = "R07.6"
+func r076(c *an.Ctx) { r076as(c, "R07.6") }
+
+func r076as(c *an.Ctx, rule string) {
 	w := publishedWorld(c)
 	n := 0
 	for _, fn := range e2Scope(c) {
